@@ -1553,25 +1553,27 @@ where
 
     #[inline(always)]
     pub fn skip_one(&mut self) -> Result<(&'de [u8], ParseStatus)> {
-        let ch = self.skip_space();
+        // the first byte of the value has been consumed, so `index() - 1` is its position
+        let Some(ch) = self.skip_space() else {
+            return perr!(self, EofWhileParsing);
+        };
         let start = self.read.index() - 1;
         let mut status = ParseStatus::None;
         match ch {
-            Some(c @ b'-' | c @ b'0'..=b'9') => {
+            c @ b'-' | c @ b'0'..=b'9' => {
                 self.skip_number(c)?;
                 Ok(())
             }
-            Some(b'"') => {
+            b'"' => {
                 status = self.skip_string()?;
                 Ok(())
             }
-            Some(b'{') => self.skip_object(),
-            Some(b'[') => self.skip_array(),
-            Some(b't') => self.parse_literal("rue"),
-            Some(b'f') => self.parse_literal("alse"),
-            Some(b'n') => self.parse_literal("ull"),
-            Some(_) => perr!(self, InvalidJsonValue),
-            None => perr!(self, EofWhileParsing),
+            b'{' => self.skip_object(),
+            b'[' => self.skip_array(),
+            b't' => self.parse_literal("rue"),
+            b'f' => self.parse_literal("alse"),
+            b'n' => self.parse_literal("ull"),
+            _ => perr!(self, InvalidJsonValue),
         }?;
         let slice = self.read.slice_unchecked(start, self.read.index());
         Ok((slice, status))
@@ -1579,22 +1581,24 @@ where
 
     #[inline(always)]
     pub fn skip_one_unchecked(&mut self) -> Result<(&'de [u8], ParseStatus)> {
-        let ch = self.skip_space();
+        // the first byte of the value has been consumed, so `index() - 1` is its position
+        let Some(ch) = self.skip_space() else {
+            return perr!(self, EofWhileParsing);
+        };
         let start = self.read.index() - 1;
         let mut status = ParseStatus::None;
         match ch {
-            Some(b'-' | b'0'..=b'9') => self.skip_number_unsafe(),
-            Some(b'"') => {
+            b'-' | b'0'..=b'9' => self.skip_number_unsafe(),
+            b'"' => {
                 status = unsafe { self.skip_string_unchecked() }?;
                 Ok(())
             }
-            Some(b'{') => self.skip_container(b'{', b'}'),
-            Some(b'[') => self.skip_container(b'[', b']'),
-            Some(b't') => self.parse_literal("rue"),
-            Some(b'f') => self.parse_literal("alse"),
-            Some(b'n') => self.parse_literal("ull"),
-            Some(_) => perr!(self, InvalidJsonValue),
-            None => perr!(self, EofWhileParsing),
+            b'{' => self.skip_container(b'{', b'}'),
+            b'[' => self.skip_container(b'[', b']'),
+            b't' => self.parse_literal("rue"),
+            b'f' => self.parse_literal("alse"),
+            b'n' => self.parse_literal("ull"),
+            _ => perr!(self, InvalidJsonValue),
         }?;
         let slice = self.read.slice_unchecked(start, self.read.index());
         Ok((slice, status))
